@@ -14,6 +14,7 @@ import atexit
 import io
 import logging
 import os
+import re
 import sys
 import tempfile
 import shutil
@@ -302,6 +303,18 @@ class CallableHandler(object):
         return b'obj'
 
 
+def _takes_debug(toolname):
+    import inspect
+    tool = getattr(cherrypy.tools, toolname, None)
+    fn = getattr(tool, 'callable', None)
+    if isinstance(fn, type):
+        return hasattr(fn, 'debug')
+    try:
+        return fn is not None and 'debug' in inspect.signature(fn).parameters
+    except (TypeError, ValueError):
+        return False
+
+
 def debug_twin(conf):
     """The same resources once more under /d, every enabled tool with `debug: True` (the tools then format
     what the client sent into log lines: configuration dimension of the statement)."""
@@ -312,10 +325,11 @@ def debug_twin(conf):
         twin = dict(opts)
         for k in opts:
             parts = k.split('.')
-            if len(parts) == 3 and parts[0] == 'tools' and parts[2] == 'on':
+            if len(parts) == 3 and parts[0] == 'tools' and parts[2] == 'on' and _takes_debug(parts[1]):
                 twin['tools.%s.debug' % parts[1]] = True
         out['/d' + section] = twin
     out['/d'] = {'tools.trailing_slash.debug': True}
+    out['/d/tsx']['tools.trailing_slash.debug'] = True
     return out
 
 
@@ -668,4 +682,9 @@ def signature(obs):
     # in the same function is a different signature
     if e.get('netloc'):
         sig += ':netloc'
+    # Python refusing a keyword argument named like the bound first argument of the page handler (K6); any other
+    # TypeError out of the dispatcher is a different signature
+    if e['exc'] == 'TypeError' and e['function'] == '__call__' and e['module'] == '_cpdispatch' \
+            and re.search(r"got multiple values for argument 'self'$", e.get('msg') or ''):
+        sig += ':bound-arg'
     return sig
